@@ -93,7 +93,7 @@ def storm_stage(ctx, thorough):
         for k in range(3 if thorough else 1):
             out = os.path.join(d, "storm%d.json" % k)
             rc, log, to = ctx.go_run(drv, "TestVerifStorm", timeout=300,
-                                     env={"VERIF_OUT": out, "VERIF_ROUNDS": 3000 if thorough else 1200, "VERIF_HANG_S": 60})
+                                     env={"VERIF_OUT": out, "VERIF_ROUNDS": 3000 if thorough else 1200, "VERIF_HANG_S": 60, "VERIF_STORM_PART": "stall"})
             ctx.count([proto, "storm", ctx.seed, k])
             if to or rc != 0 or not os.path.exists(out):
                 why = next((l for l in log.split("\n") if l.startswith(("panic:", "fatal error:"))), None)
@@ -106,6 +106,7 @@ def storm_stage(ctx, thorough):
                 ctx.violation("%s: with decoders running side by side (data sets of unknown templates, lookups that miss, template announcements), %s Decode calls "
                               "had not returned after 60 s: a datagram stalls its worker for good" % (codec.P[proto]["name"], r["stuck"] if r["stuck"] > 0 else "some"),
                               {"proto": proto, "rounds": r["rounds"]}, key=proto + ":storm-stuck")
+            ctx.extra.setdefault("storm", {})[proto] = r
             ctx.traces_validated += 1
 
 
